@@ -10,7 +10,9 @@
  * starve the yielders.  With ONE kernel thread the harness knows who blocks and who is woken
  * (no preemption between scheduling events) and logs `block` before a call that will park the
  * caller and `sched <fiber>` before a call that will wake <fiber>; the scheduler model then
- * predicts the exact run order.  With more kernel threads only the starvation oracle applies. */
+ * predicts the exact run order (model Sched).  With more kernel threads nobody announces
+ * anything: model SchedN replays the run-queue events (rqpush / rqpop / rqsteal), the context
+ * switches and the scheduler's accesses to the fiber state words of the log itself. */
 /* many fibers: size-triggered scheduler paths (deque growth at 256 entries) */
 #define VH_MAXF 600
 #include "rtcommon.h"
